@@ -278,7 +278,7 @@ def showIdx : Option Nat → String
 
 def render (m : Sim) : String :=
   let r := match m.resolvedAt with
-    | some t => s!"R{t}:{m.st.openAtResolve}:ok"
+    | some t => if m.st.cfgGraceful then s!"R{t}:{m.st.openAtResolve}:ok" else s!"R{t}:*:ok"
     | none => "R-:-:-"
   let cs := (m.st.conns.zipIdx).map fun (cn, i) =>
     s!"c{i}:{if cn.accepted then 1 else 0}:{showIdx (m.closedAt.getD i none)}"
